@@ -398,7 +398,11 @@ func (h *harness) runCase(l *local, cfg *sconfig, ci int) {
 			l.byWant[0]++
 		}
 		if c.got != want {
-			h.report(cfg, chain, ci, caseID, frames, states, script, c, want, clause)
+			// A public-key argument gets its own signature only when the same check
+			// with the hash argument (the cell just before) agrees with the reference.
+			keyedOnly := c.target > 0 && len(cfg.targets[c.target]) != 20 && i > 0 && cells[i-1].hash == c.hash &&
+				cells[i-1].pos == c.pos && cells[i-1].phase == c.phase && cells[i-1].got == want
+			h.report(cfg, chain, ci, caseID, frames, states, script, c, want, clause, keyedOnly)
 		}
 	}
 }
@@ -495,12 +499,12 @@ func (h *harness) minimalCond(cfg *sconfig, chain chainSpec, c *cell, clause str
 // break which flips millions of cells costs one minimisation per shape.
 var sigCache sync.Map
 
-func (h *harness) report(cfg *sconfig, chain chainSpec, ci int, caseID string, frames []frame, states []gstate, script []byte, c *cell, want bool, clause string) {
+func (h *harness) report(cfg *sconfig, chain chainSpec, ci int, caseID string, frames []frame, states []gstate, script []byte, c *cell, want bool, clause string, keyedOnly bool) {
 	sig := fmt.Sprintf("cell:%s:want=%v", clause, want)
 	if c.phase == "native-transfer" || c.phase == "payment-from" {
 		sig += ":in-native-transfer"
 	}
-	if c.target >= 0 && len(cfg.targets[c.target]) != 20 {
+	if keyedOnly {
 		sig += ":public-key-argument"
 	}
 	mr := mutRelation(frames, states[c.state], c.pos)
